@@ -27,6 +27,13 @@ def build_dfa(src):
         rng = random.Random(src["seed"])
         S = rng.choice(src.get("alphabets", ["a", "ab", "ab", "abc"]))
         D = U.random_dfa(rng, rng.randint(1, src.get("maxk", 6)), S)
+    elif src["kind"] == "numbered_dfa":
+        # 10-13 states named <hint><number> with the hints the library's own fresh names use (numbers beyond 9)
+        rng = random.Random(src["seed"])
+        k = rng.randint(10, 13)
+        D = U.random_dfa(rng, k, rng.choice(["a", "ab"]))
+        hint, first = rng.choice([("q", 0), ("q", 1), ("trap", 1), ("P", 1)])
+        return U.rename_fa(D, {"s%d" % i: "%s%d" % (hint, first + i) for i in range(k)})
     elif src["kind"] == "late_split_dfa":
         return U.late_split_dfa(random.Random(src["seed"]))
     else:
@@ -45,6 +52,9 @@ def dfa_srcs(task):
         for code in range(task["lo"], task["hi"], task.get("stride", 1)):
             yield {"kind": "exh_dfa", "k": task["k"], "S": task["S"], "code": code, "pool": task.get("pool", 0),
                    "perm": code % 7}
+    elif task["kind"] == "numbered_dfa":
+        for i in range(task["count"]):
+            yield {"kind": "numbered_dfa", "seed": task["seed"] * 100000 + i}
     elif task["kind"] == "late_split_dfa":
         for i in range(task["count"]):
             yield {"kind": "late_split_dfa", "seed": task["seed"] * 100000 + i}
